@@ -104,3 +104,44 @@ func rangeIntBound(li *loopInfo, phi *ssa.Phi) ssa.Value {
 	}
 	return nil
 }
+
+// counterLowerBound recognises `for i := c; i < X; i++` (header phi with one constant entry
+// value c, every back edge carrying phi+1, the header's exit test phi < X) and returns c:
+// the counter never drops below its start (phi < X <= max of its type, so phi+1 cannot wrap).
+func counterLowerBound(li *loopInfo, phi *ssa.Phi) (int64, bool) {
+	bt, isInt := phi.Type().Underlying().(*types.Basic)
+	if !isInt || bt.Info()&types.IsInteger == 0 {
+		return 0, false
+	}
+	hdr := li.header
+	if len(hdr.Instrs) == 0 || phi.Block() != hdr {
+		return 0, false
+	}
+	br, ok := hdr.Instrs[len(hdr.Instrs)-1].(*ssa.If)
+	if !ok {
+		return 0, false
+	}
+	cmp, ok := br.Cond.(*ssa.BinOp)
+	if !ok || cmp.Op != token.LSS || cmp.X != ssa.Value(phi) || len(hdr.Succs) != 2 || !li.body[hdr.Succs[0]] || li.body[hdr.Succs[1]] {
+		return 0, false
+	}
+	init, have := int64(0), false
+	for i, e := range phi.Edges {
+		if !li.body[hdr.Preds[i]] {
+			c, isC := e.(*ssa.Const)
+			if !isC || c.Value == nil || have {
+				return 0, false
+			}
+			init, have = c.Int64(), true
+			continue
+		}
+		inc, isB := e.(*ssa.BinOp)
+		if !isB || inc.Op != token.ADD || inc.X != ssa.Value(phi) {
+			return 0, false
+		}
+		if c, isC := inc.Y.(*ssa.Const); !isC || c.Value == nil || c.Value.ExactString() != "1" {
+			return 0, false
+		}
+	}
+	return init, have
+}
